@@ -122,7 +122,7 @@ def run_tlc(
         cfg_path = work / f'{module}.cfg'
         cfg_path.write_text(cfg)
         cmd = [
-            'java', '-XX:+UseParallelGC', '-Xmx6g', '-cp', TLA_CP,
+            'java', '-XX:+UseParallelGC', f'-XX:ParallelGCThreads={max(2, workers)}', '-Xss64m', '-Xmx6g', '-cp', TLA_CP,
             '-Dtlc2.tool.fp.FPSet.impl=tlc2.tool.fp.OffHeapDiskFPSet',
             'tlc2.TLC', '-workers', str(workers), '-metadir', str(work / 'meta'),
             '-noGenerateSpecTE', '-config', str(cfg_path),
@@ -154,7 +154,9 @@ def run_tlc(
         if simulate and proc.returncode == 0:
             res.ok = True
         if not res.ok and res.violated is None:
-            tail = '\n'.join(proc.stdout.splitlines()[-40:])
+            lines = [ln[:400] for ln in proc.stdout.splitlines() if '"CASE"' not in ln[:12]]
+            first = next((i for i, ln in enumerate(lines) if ln.startswith('Error')), None)
+            tail = '\n'.join((lines[first:first + 12] + ['...'] if first is not None else []) + lines[-40:])
             raise MachineryError(
                 f'TLC failed on {module} (exit {proc.returncode}):\n{tail}\n{proc.stderr[-2000:]}'
             )
@@ -251,17 +253,60 @@ def _worker_call(args):
         return {'case': case, 'harness_error': traceback.format_exc()}
 
 
+def _worker_chunk(args):
+    modname, funcname, chunk = args
+    return [_worker_call((modname, funcname, c)) for c in chunk]
+
+
+RECYCLE_AFTER_CASES = int(os.environ.get('VERIF_RECYCLE', '600'))   # a replay worker is replaced after this many cases
+
+
 def replay(modname: str, funcname: str, cases: list, *, x64: bool = False, procs: int | None = None,
            chunksize: int = 4) -> list:
     """Execute funcname(case) of harness module `modname` for every case on the real library,
-    in `procs` fresh processes (spawned, so the x64 flag is set before jax is imported)."""
+    in `procs` fresh processes (spawned, so the x64 flag is set before jax is imported).
+    Workers are recycled after RECYCLE_AFTER_CASES cases (jax's compilation caches grow without
+    bound over 10^5 distinct programs); a worker that dies (e.g. killed by the kernel for memory)
+    does not hang the run: the chunks that were lost are executed again in a new pool, and a chunk
+    that kills its worker three times is a machinery error."""
     if not cases:
         return []
+    from concurrent.futures import ProcessPoolExecutor, as_completed
+    from concurrent.futures.process import BrokenProcessPool
+
     procs = procs or NPROC
     procs = max(1, min(procs, len(cases)))
     ctx = mp.get_context('spawn')
-    with ctx.Pool(procs, initializer=_worker_init, initargs=(x64, str(REPO), True)) as pool:
-        out = pool.map(_worker_call, [(modname, funcname, c) for c in cases], chunksize=chunksize)
+    chunks = [cases[i:i + chunksize] for i in range(0, len(cases), chunksize)]
+    results: dict[int, list] = {}
+    todo = list(range(len(chunks)))
+    failures = 0
+    # waves: a pool of fresh workers executes at most procs * RECYCLE_AFTER_CASES cases, then is replaced
+    # (ProcessPoolExecutor's own max_tasks_per_child deadlocks on Python 3.12.1, so it is not used)
+    wave_chunks = max(procs, procs * RECYCLE_AFTER_CASES // max(1, chunksize))
+    while todo:
+        wave, todo = todo[:wave_chunks], todo[wave_chunks:]
+        broken = False
+        with ProcessPoolExecutor(max_workers=min(procs, len(wave)), mp_context=ctx, initializer=_worker_init,
+                                 initargs=(x64, str(REPO), True)) as ex:
+            futs = {ex.submit(_worker_chunk, (modname, funcname, chunks[i])): i for i in wave}
+            try:
+                for f in as_completed(futs):
+                    try:
+                        results[futs[f]] = f.result()
+                    except BrokenProcessPool:
+                        broken = True
+            except BrokenProcessPool:
+                broken = True
+        lost = [i for i in wave if i not in results]
+        if lost:
+            if not broken:
+                raise MachineryError(f'{len(lost)} replay chunks produced no result')
+            failures += 1
+            if failures > 3:
+                raise MachineryError(f'replay workers died repeatedly; {len(lost) + len(todo)} chunks not executed')
+            todo = lost + todo
+    out = [o for i in range(len(chunks)) for o in results[i]]
     errs = [o for o in out if isinstance(o, dict) and 'harness_error' in o]
     if errs:
         raise MachineryError('harness failure in worker:\n' + errs[0]['harness_error'])
